@@ -297,6 +297,93 @@ struct Init {
             p.quick_s = 60; p.thorough_s = 600;
             reg(p);
         }
+        {   // C10 hints, process count and execution modes never change results (configuration differential)
+            Profile p; p.id = "C10"; p.level = "exploration";
+            p.technique = "deterministic simulation: configuration differential - the same generated program executed on two simulated jobs (other hints incl. PNETCDF_HINTS vs MPI_Info form, safe mode, rank count and rank assignment, node topology / aggregators, knob values, schedule) with model oracles in both runs and a cross-run comparison of return codes and logical file content";
+            p.rule = "one seed = one program of the C01/C02/C05-C07 fragment (blocking and nonblocking writes/reads, record variables, redefinition, attributes, fill) generated for configuration A (1..4 ranks, random hints); configuration B is derived from the seed: n' >= n ranks (<= 8) with the work of rank r moved to a random other rank and the extra ranks participating with zero-length requests, fresh random alignment / swap / ibuf / hash-size / header-collective / aggregators-per-node hints of which a random half is passed as MPI_Info and the rest through PNETCDF_HINTS, safe mode, node topology, internal size knobs and schedule parameters; oracles: both runs satisfy the reference model (values read, record counts, raw file decode); every call returns the same code in A and B on the corresponding rank; the final files have the same dimensions, attributes, variables, record count and every determinate element value (independent decoder); for files created in the run, ncmpi_inq_file_info reports the alignment the documented precedence of the settings dictates, the layout in the file honours it (first fixed variable, record section, h_minfree, v_minfree) and value hints are reported as set; non-trivial = both runs completed, data was written and B differs from A in rank count or hints";
+            p.gen = [](uint64_t seed, bool th) {
+                GenParams g; g.max_np = 4; g.max_data_ops = th ? 24 : 14; g.nonblocking = true; g.redef = true; g.fill = true; g.hints = true; g.knobs = true; g.align_args = true; g.big = (seed % 3 == 0); g.meta_heavy = (seed % 4 == 0); g.checkpoint_each = (seed % 5 == 0);
+                return gen_program(seed, g, "C10");
+            };
+            p.check = [](Program &q) {
+                RunOpts o; o.check_hints = true;
+                RunResult ra = run_program(q, o);
+                if (!ra.violations.empty()) { ra.violations[0].detail += " [configuration A]"; return ra; }
+                // the property is stated for valid programs: a request with an argument error is outside its fragment (safe mode legitimately shares such codes, C08)
+                for (auto &op : q.ops) if (!op.skip && (op.kind == OP_PUT || op.kind == OP_GET || op.kind == OP_IPUT || op.kind == OP_IGET || op.kind == OP_BPUT)) for (auto &a : op.acc) if (a.active && a.exp_rc != NC_NOERR && a.exp_rc != NC_EINSUFFBUF) return ra;
+                // ---- derive configuration B
+                Program b = q; sim::Rng rng(q.seed * 0x2545F4914F6CDD1DULL + 77);
+                int np = q.cfg.sim.nprocs; int np2 = np + (int)rng.below((uint64_t)std::min(8 - np, 4) + 1);
+                std::vector<int> slots(np2); for (int i = 0; i < np2; i++) slots[i] = i; for (int i = np2 - 1; i > 0; i--) std::swap(slots[i], slots[rng.below(i + 1)]);
+                std::vector<int> perm(slots.begin(), slots.begin() + np);
+                sim::SimConfig old = q.cfg.sim; b.cfg.sim = sim::SimConfig(); b.cfg.sim.max_steps = old.max_steps;
+                for (auto &kv : old.env) if (kv.first != "PNETCDF_HINTS" && kv.first != "PNETCDF_SAFE_MODE") b.cfg.sim.env[kv.first] = kv.second;
+                GenParams g; g.forced_np = true; g.np = np2; g.hints = true; g.knobs = true; gen_config(rng, b, g); b.cfg.format = q.cfg.format;
+                // a random half of the hints travels as MPI_Info instead of the environment
+                std::map<std::string, std::string> as_info;
+                { auto e = b.cfg.sim.env.find("PNETCDF_HINTS"); if (e != b.cfg.sim.env.end()) { std::string h = e->second, keep; size_t pos = 0; while (pos < h.size()) { size_t sc = h.find(';', pos); if (sc == std::string::npos) sc = h.size(); std::string kv = h.substr(pos, sc - pos); size_t eq = kv.find('='); if (eq != std::string::npos && rng.chance(0.5)) as_info[kv.substr(0, eq)] = kv.substr(eq + 1); else keep += (keep.empty() ? "" : ";") + kv; pos = sc + 1; } if (keep.empty()) b.cfg.sim.env.erase("PNETCDF_HINTS"); else e->second = keep; } }
+                for (auto &op : b.ops) {
+                    if (op.kind == OP_CREATE || op.kind == OP_OPEN) for (auto &kv : as_info) op.hints[kv.first] = kv.second;
+                    if (!op.acc.empty()) {
+                        bool scalar = op.snap && op.var >= 0 && op.var < (int)op.snap->vars.size() && op.snap->vars[op.var].dimids.empty();
+                        std::vector<Access> na(np2); std::vector<bool> set(np2, false);
+                        for (int r = 0; r < np && r < (int)op.acc.size(); r++) { na[perm[r]] = op.acc[r]; if (na[perm[r]].vrank < 0) na[perm[r]].vrank = r; set[perm[r]] = true; }
+                        for (int x = 0; x < np2; x++) if (!set[x]) { if (scalar && op.coll && (op.kind == OP_PUT || op.kind == OP_GET)) { na[x] = op.acc[0]; na[x].vrank = 0; } else { na[x] = Access(); na[x].active = false; na[x].form = op.acc[0].form; } }
+                        op.acc = na;
+                    }
+                    if (!op.waits.empty()) { std::vector<WaitSpec> nw(np2); for (auto &w : nw) w.active = false; for (int r = 0; r < np && r < (int)op.waits.size(); r++) nw[perm[r]] = op.waits[r]; op.waits = nw; }
+                    if (op.only_rank >= 0 && op.only_rank < np) op.only_rank = perm[op.only_rank];
+                }
+                RunResult rb = run_program(b, o);
+                rb.st.steps += ra.st.steps; rb.st.coll += ra.st.coll; rb.st.fileio += ra.st.fileio; rb.st.switches += ra.st.switches; rb.st.bytes_written += ra.st.bytes_written; rb.st.bytes_read += ra.st.bytes_read; rb.st.ilv_hash ^= ra.st.ilv_hash * 31;
+                auto cfgtxt = [&]() { std::string t = " [configuration B: nprocs=" + std::to_string(np2) + " ranks"; for (int r = 0; r < np; r++) t += " " + std::to_string(r) + "->" + std::to_string(perm[r]); for (auto &kv : b.cfg.sim.env) t += " " + kv.first + "=" + kv.second; for (auto &kv : as_info) t += " info:" + kv.first + "=" + kv.second; for (auto &kv : b.cfg.sim.knobs) t += " knob:" + kv.first + "=" + std::to_string(kv.second); return t + "]"; };
+                if (!rb.violations.empty()) { rb.violations[0].detail += cfgtxt(); return rb; }
+                auto diff = [&](int opi, const std::string &d) { sim::ViolationInfo v; v.kind = opi >= 0 ? "oracle:config-diff-rc" : "oracle:config-diff-file"; v.op = opi; v.detail = d + cfgtxt(); rb.violations.push_back(v); };
+                // ---- same return codes on corresponding ranks
+                for (size_t i = 0; i < q.ops.size() && rb.violations.empty(); i++) for (int r = 0; r < np; r++) {
+                    const OpResult &x = ra.rcs[r][i], &y = rb.rcs[perm[r]][i];
+                    // where the reference model itself leaves the code open (a read racing with another rank's later write may or may not hit NC_ERANGE) nothing is compared
+                    if (q.ops[i].rc_any || (r < (int)q.ops[i].acc.size() && q.ops[i].acc[r].rc_any)) continue;
+                    bool st_diff = x.statuses.size() != y.statuses.size(); for (size_t k = 0; k < x.statuses.size() && !st_diff; k++) if (x.statuses[k] != y.statuses[k] && x.statuses[k] != NC_ERANGE && y.statuses[k] != NC_ERANGE) st_diff = true;
+                    bool rc_diff = x.rc != y.rc && !((q.ops[i].kind == OP_WAIT) && (x.rc == NC_ERANGE || y.rc == NC_ERANGE));
+                    if (x.executed != y.executed || rc_diff || st_diff) { diff((int)i, op_to_string(q.ops[i], r) + ": rank " + std::to_string(r) + " got " + (x.executed ? ncmpi_strerrno(x.rc) : "(not executed)") + " under configuration A but rank " + std::to_string(perm[r]) + " got " + (y.executed ? ncmpi_strerrno(y.rc) : "(not executed)") + " under configuration B" + (st_diff ? " (request statuses differ)" : "")); break; }
+                }
+                // ---- same logical content of the final files
+                const Model *fm = nullptr; for (auto it = q.ops.rbegin(); it != q.ops.rend() && !fm; ++it) if (it->msnap) fm = it->msnap.get();
+                for (auto &kv : ra.final_files) {
+                    if (!rb.violations.empty()) break;
+                    auto jt = rb.final_files.find(kv.first);
+                    if (jt == rb.final_files.end() || jt->second.exists != kv.second.exists) { diff(-1, "file " + kv.first + " exists under one configuration only"); break; }
+                    if (!kv.second.exists) continue;
+                    cdf::File da, db; if (!cdf::decode_header(kv.second, da) || !cdf::decode_header(jt->second, db)) continue;   // reported by the model oracle of the run
+                    std::string why;
+                    auto same_atts = [&](const std::vector<cdf::Att> &x, const std::vector<cdf::Att> &y, const std::string &ctx) { if (x.size() != y.size()) { why = ctx + ": attribute count"; return; } for (size_t i = 0; i < x.size(); i++) if (x[i].name != y[i].name || x[i].type != y[i].type || x[i].nelems != y[i].nelems || x[i].raw != y[i].raw) { why = ctx + ": attribute '" + x[i].name + "'"; if (getenv("VERIF_DEBUG")) { auto hx = [](const std::vector<uint8_t> &v) { std::string t; char b[4]; for (auto c : v) { snprintf(b, 4, "%02x", c); t += b; } return t; }; why += " A=" + hx(x[i].raw) + " B=" + hx(y[i].raw) + " nelems " + std::to_string(x[i].nelems) + "/" + std::to_string(y[i].nelems); } return; } };
+                    if (da.version != db.version) why = "format version"; else if (da.numrecs != db.numrecs) why = "record count " + std::to_string(da.numrecs) + " vs " + std::to_string(db.numrecs);
+                    else if (da.dims.size() != db.dims.size() || da.vars.size() != db.vars.size()) why = "number of dimensions / variables";
+                    for (size_t i = 0; i < da.dims.size() && why.empty(); i++) if (da.dims[i].name != db.dims[i].name || da.dims[i].len != db.dims[i].len) why = "dimension " + std::to_string(i);
+                    if (why.empty()) same_atts(da.gatts, db.gatts, "global");
+                    const MFile *mf = nullptr; if (fm) { auto d = fm->disk.find(kv.first); if (d != fm->disk.end()) mf = &d->second; }
+                    for (size_t i = 0; i < da.vars.size() && why.empty(); i++) {
+                        const cdf::Var &x = da.vars[i], &y = db.vars[i];
+                        if (x.name != y.name || x.type != y.type || x.dimids != y.dimids) { why = "variable " + std::to_string(i) + " definition"; break; }
+                        same_atts(x.atts, y.atts, "variable '" + x.name + "'"); if (!why.empty()) break;
+                        if (!mf || i >= mf->vars.size()) continue;
+                        const MVar &mv = mf->vars[i];
+                        for (size_t e = 0; e < mv.cells.size(); e++) {
+                            if (mv.cells[e].st != CS_VALUE && mv.cells[e].st != CS_FILL) continue;
+                            long long ia, ib; double fa, fb; bool isf; bool oka = cdf::read_elem(kv.second, da, x, (long long)e, ia, fa, isf), okb = cdf::read_elem(jt->second, db, y, (long long)e, ib, fb, isf);
+                            if (oka != okb || ia != ib || !(fa == fb || (fa != fa && fb != fb))) { why = "variable '" + x.name + "' element " + std::to_string(e) + ": " + std::to_string(fa) + " vs " + std::to_string(fb); break; }
+                        }
+                    }
+                    if (!why.empty()) diff(-1, "final file " + kv.first + " differs logically between the two configurations: " + why);
+                }
+                return rb;
+            };
+            p.nontrivial = [](const Program &q, const RunResult &r) { return r.completed && r.st.bytes_written > 0; };
+            p.assumptions = {"only configurations with n' >= n ranks are paired (work is re-assigned to other ranks and extra ranks idle; an arbitrary re-partition of one rank's request over several ranks is not generated)", "hint values are drawn from the valid domain (hash sizes >= 1, positive sizes)"};
+            p.quick_s = 40; p.thorough_s = 600;
+            reg(p);
+        }
         {   // C17 lifecycle of handles and resources
             Profile p; p.id = "C17"; p.level = "exploration";
             p.technique = "deterministic simulation with fault injection: seeded histories over several files + resource accounting at the allocation / MPI-object seams";
